@@ -195,6 +195,15 @@ impl RandomSource {
                 comps.insert(pos + 1, back);
             }
         }
+        if self.cfg.dots && self.rng.chance(1, 10) {
+            // reach the target directory through the ".." entry of one of its own subdirectories ("target/child/..")
+            let kids: Vec<String> = (0..m.nodes.len()).filter(|i| m.nodes[*i].alive && m.nodes[*i].is_dir && m.nodes[*i].parent == target && *i != target).map(|i| m.nodes[i].name.clone()).collect();
+            if !kids.is_empty() {
+                let k = kids[self.rng.usize_below(kids.len())].clone();
+                comps.push(self.vary_case(&k));
+                comps.push("..".into());
+            }
+        }
         let last = self.pick_name(m, target, prefer_existing);
         comps.push(last);
         let mut p = comps.join("/");
@@ -312,8 +321,12 @@ impl OpSource for RandomSource {
                         Some(Op::OpenFile { dir, path, slot })
                     }
                     3 => {
-                        let (dir, path) = self.pick_path(m, true);
+                        let (dir, mut path) = self.pick_path(m, true);
                         let slot = self.free_slot(m);
+                        // a handle obtained through a dot entry ("x/.." is the parent of x, "x/." is x itself)
+                        if self.cfg.dots && self.rng.chance(1, 8) && !path.ends_with('/') {
+                            path.push_str(if self.rng.chance(2, 3) { "/.." } else { "/." });
+                        }
                         Some(Op::OpenDir { dir, path, slot })
                     }
                     4 => {
